@@ -76,6 +76,8 @@ ENGINES = [
      "serves_properties": [k for k, v in P.items() if "shadow-iv" in v[0]]},
     {"name": "native", "path": "harness/src/props", "kind_free_text": "monitors on the real primitive scalar types: value-exact component models, bitwise spelling equality, panic events, serde data-model recorder, and accuracy monitors (f32-vs-f64 twin runs of the same generic code, known-exact-answer inputs) with tolerances >= 100x the observed rounding error",
      "serves_properties": [k for k, v in P.items() if "native" in v[0]]},
+    {"name": "feature-matrix", "path": "featmat/src/main.rs", "kind_free_text": "differential run of a fixed battery of ~120 core operations (tagged by property, none feature-gated) built against every subset of cgmath's cargo features; output must equal the one under the monitors' feature set; computed once per content hash of /repo/src",
+     "serves_properties": [k for k in P if k != "C20"]},
     {"name": "miri", "path": "miri/src/main.rs", "kind_free_text": "cargo +nightly miri run (-Zmiri-tree-borrows gate, Stacked Borrows advisory) over every unsafe view / swap / get_unchecked; thorough tier: the same workload natively under valgrind memcheck and AddressSanitizer; std unsafe-precondition checks (debug assertions) in every native monitor",
      "serves_properties": [k for k, v in P.items() if "miri" in v[0]]},
 ]
@@ -98,7 +100,7 @@ def main():
             "thorough_cmd": f"./check {k} --tier thorough",
             "evidence_file": f"/verif/evidence/{k}.json",
             "replay_cmd_template": f"./check {k} --replay {{path}}",
-            "engine": eng,
+            "engine": eng + ("" if k == "C20" else " feature-matrix"),
             "level_claimed": {"category": "exploration", "text": text, "design_ref": f"DESIGN.md §5 {k}"},
             "level_note": note,
             "technique": "runtime monitoring: " + tech,
